@@ -24,6 +24,7 @@ def dispatch (line : String) : String :=
   if line.startsWith "vmrun " then VmDrv.run line else
   if line.startsWith "repl " then ReplDrv.run line else
   if line.startsWith "filter " then FilterDrv.run line else
+  if line.startsWith "filterout " then FilterDrv.runOut line else
   if line.startsWith "core " then CoreDrv.run line else
   if line.startsWith "core2 " then CoreDrv.run2 line else
   if line.startsWith "pexpr " then ParseDrv.run line else
